@@ -15,7 +15,10 @@ def _item(op: Any, special: Any) -> dict:
     if isinstance(op, special.SsbForeignLabel):
         return {"k": "foreign", "id": op.label.id}
     if isinstance(op, special.SsbLabelJump):
-        r = op.root
+        r = op.maybe_root
+        if r is None:
+            # a multi-if (group_branches): the root is unset, the root ops are in the MultiIfStart marker, the original one first
+            r = next(m for m in op.markers if isinstance(m, special.MultiIfStart)).original_ssb_ifs_ops[0]
         return {"k": "ljump", "off": r.offset, "name": r.op_code.name, "params": [rsjson.param_to_json(p) for p in r.params],
                 "label": op.label.id, "call": any(isinstance(m, special.CallJump) for m in op.markers)}
     return {"k": "op", "off": op.offset, "name": op.op_code.name, "params": [rsjson.param_to_json(p) for p in op.params]}
@@ -64,9 +67,50 @@ def front(arg: dict) -> dict:
     out["answers"] = answers
     if "error" in bb:
         out["bb"] = bb
-    else:
-        out["bb"] = [_bgraph(g, special) for g in grapher.get_graphs()]
+        return out
+    out["bb"] = [_bgraph(g, special) for g in grapher.get_graphs()]
+    # third and fourth rewriting phase: group_branches, invert_branches (deterministic, modelled without an oracle)
+    err = run_guarded(grapher, "group_branches")
+    if err:
+        out["gb"] = err
+        return out
+    out["gb"] = [_bgraph(g, special) for g in grapher.get_graphs()]
+    err = run_guarded(grapher, "invert_branches")
+    if err:
+        out["ib"] = err
+        return out
+    out["ib"] = [_bgraph(g, special) for g in grapher.get_graphs()]
     return out
+
+
+class Hang(Exception):
+    """the while loop of group_branches has run more rounds for one vertex than the graph has vertices + 1: from then on it
+    repeats itself for ever (the chain of else-successors is in a cycle that avoids the vertex); the model answers "Hang"."""
+
+
+def run_guarded(grapher: Any, phase: str) -> dict:
+    """runs the real phase; {} or {"error": class}.  The loop condition of group_branches is counted from outside."""
+    from explorerscript.ssb_converting.decompiler.graph_building import graph_minimizer as gm
+    orig = gm.SsbGraphMinimizer.__dict__["_group_branches__is_if_group_possible"]
+    state: dict = {"key": None, "n": 0}
+
+    def counted(base_edge: Any, v_to_check: Any) -> bool:
+        key = (id(v_to_check.graph), base_edge.source)
+        if state["key"] != key:
+            state["key"], state["n"] = key, 0
+        state["n"] += 1
+        if state["n"] > v_to_check.graph.vcount() + 1:
+            raise Hang()
+        return orig.__func__(base_edge, v_to_check)
+
+    gm.SsbGraphMinimizer._group_branches__is_if_group_possible = staticmethod(counted)
+    try:
+        getattr(grapher, phase)()
+    except BaseException as e:  # noqa
+        return {"error": type(e).__name__}
+    finally:
+        gm.SsbGraphMinimizer._group_branches__is_if_group_possible = orig
+    return {}
 
 
 def _vname(v: Any) -> Any:
@@ -84,12 +128,22 @@ def _bgraph(g: Any, special: Any) -> dict:
         op = v["op"]
         d["n"] = _vname(v)
         ifs, ife = None, []
+        d["mops"], d["not"], d["multi"] = [], False, False
         if isinstance(op, special.SsbLabelJump):
             for m in op.markers:
                 if isinstance(m, special.IfStart):
                     ifs = m.if_id
+                    d["not"] = bool(m.is_not)
+                    if isinstance(m, special.MultiIfStart):
+                        d["mops"] = [{"off": o.offset, "name": o.op_code.name, "params": [rsjson.param_to_json(p) for p in o.params]}
+                                     for o in m.original_ssb_ifs_ops[1:]]
                 elif not isinstance(m, special.CallJump):
                     ifs = "?" + type(m).__name__
+            # the three facts that make a Python object a multi-if must agree: marker class, root unset, opcode renamed
+            facts = {any(isinstance(m, special.MultiIfStart) for m in op.markers), op.maybe_root is None, op.op_code.name == "ES_OR_MULTI_IF"}
+            d["multi"] = facts.pop() if len(facts) == 1 else "?inconsistent"
+            if d["multi"] is False and op.op_code.name != f"ES_JUMP<{op.root.op_code.name}>":
+                d["multi"] = "?opname " + op.op_code.name
         elif isinstance(op, special.SsbLabel):
             for m in op.markers:
                 ife.append(m.if_id if isinstance(m, special.IfEnd) else "?" + type(m).__name__)
@@ -204,9 +258,46 @@ def _op_from_item(d: dict, special: Any, dt: Any) -> Any:
         if d.get("call"):
             op.add_marker(special.CallJump())
         if d.get("ifs") is not None:
-            op.markers.append(special.IfStart(d["ifs"]))
+            if d.get("mops"):
+                m = special.MultiIfStart(d["ifs"], [op.root] + [dt.SsbOperation(o["off"], dt.SsbOpCode(-1, o["name"]), [rsjson.param_from_json(p) for p in o["params"]]) for o in d["mops"]])
+                op.unset_root()
+                op.op_code.name = "ES_OR_MULTI_IF"
+            else:
+                m = special.IfStart(d["ifs"])
+            m.is_not = bool(d.get("not"))
+            op.markers.append(m)
         return op
     return plain()
+
+
+def _hand_built(arg_g: dict) -> tuple[Any, Any, Any]:
+    from igraph import Graph
+    from explorerscript.ssb_converting import ssb_special_ops as special
+    from explorerscript.ssb_converting import ssb_data_types as dt
+    from explorerscript.ssb_converting.decompiler.graph_building import graph_minimizer as gm
+    g = Graph(directed=True)
+    for i, v in enumerate(arg_g["vs"]):
+        name = f"v{v['n']}" if v.get("n") is not None else f"FLR<from{i}>"
+        vx = g.add_vertex(name, label=None, op=_op_from_item(v, special, dt), style="solid", shape="ellipse")
+        gm.SsbGraphMinimizer._update_vertex_style(vx)
+    for s, t, lv, loop, is_else in arg_g["es"]:
+        g.add_edge(s, t, flow_level=lv, label=None, is_else=bool(is_else), switch_ops=None, loop=bool(loop))
+    grapher = object.__new__(gm.SsbGraphMinimizer)
+    grapher._graphs = [g]
+    grapher.optimize_ending_opcodes = True
+    return g, grapher, special
+
+
+def group_on_graph(arg: dict) -> dict:
+    """graph-level tie of group_branches / invert_branches: the REAL pass on a hand-built igraph graph.
+    arg: {"g": bgraph json, "pass": "group" | "invert"} -> bgraph json | {"error": class}"""
+    g, grapher, special = _hand_built(arg["g"])
+    err = run_guarded(grapher, "group_branches" if arg["pass"] == "group" else "invert_branches")
+    return err if err else _bgraph(g, special)
+
+
+def group_on_graphs(args: list[dict]) -> list[dict]:
+    return [group_on_graph(a) for a in args]
 
 
 def branches_on_graph(arg: dict) -> dict:
